@@ -35,7 +35,7 @@ func (k kind) String() string {
 type val struct {
 	v      core.Value
 	packed string
-	lit    string // source literal ("" = has none, only usable as a row value)
+	lit    string     // source literal ("" = has none, only usable as a row value)
 	cv     core.Value // the value the parser gives for lit (may be another number representation than v)
 	k      kind
 }
@@ -147,6 +147,27 @@ type node struct {
 	kids  []*node
 }
 
+// renderSubAsAddNeg makes String write every `x - y` as `x + (-y)`: what the
+// query evaluator computes (known finding subtraction-as-add-negation).
+var renderSubAsAddNeg = false
+
+// altString renders n with every subtraction written as addition of the negation.
+func (n *node) altString() string {
+	renderSubAsAddNeg = true
+	defer func() { renderSubAsAddNeg = false }()
+	return n.String()
+}
+
+func (n *node) hasSubtraction() bool {
+	has := false
+	n.walk(func(x *node) {
+		if x.op == "chain+" && strings.Contains(x.signs, "-") {
+			has = true
+		}
+	})
+	return has
+}
+
 func (n *node) atom() bool { return n.op == "const" || n.op == "col" }
 
 func isCmpOp(op string) bool {
@@ -209,7 +230,11 @@ func (n *node) String() string {
 		var sb strings.Builder
 		sb.WriteString(n.kids[0].sub())
 		for i, k := range n.kids[1:] {
-			sb.WriteString(" " + string(n.signs[i]) + " " + k.sub())
+			if renderSubAsAddNeg && n.signs[i] == '-' {
+				sb.WriteString(" + (-" + k.subNeg() + ")")
+			} else {
+				sb.WriteString(" " + string(n.signs[i]) + " " + k.sub())
+			}
 		}
 		return sb.String()
 	case "$":
